@@ -385,6 +385,10 @@ def items(tier):
                                     mesh=mesh, ndof=ndof, opshape=list(ops), again=True))
         out.append(dict(kind="repeat", id="repeat-%s-ndof2" % tag, mesh=mesh, ndof=2, opshape=[]))
         out.append(dict(kind="repeat", id="repeat-%s-ndof3-op2" % tag, mesh=mesh, ndof=3, opshape=[2]))
+        if M.nel <= 2:      # two and three leading operator axes (not square: a permutation of them changes the shape)
+            out.append(dict(kind="repeat", id="repeat-%s-ndof2-op2x3" % tag, mesh=mesh, ndof=2, opshape=[2, 3]))
+            out.append(dict(kind="repeat", id="repeat-%s-ndof2-op2x2" % tag, mesh=mesh, ndof=2, opshape=[2, 2]))
+            out.append(dict(kind="repeat", id="repeat-%s-ndof3-op2x1x2" % tag, mesh=mesh, ndof=3, opshape=[2, 1, 2]))
     return out
 
 
